@@ -6,14 +6,17 @@
    ValidateBasic, GetSigners, the SubmitTx response, every recorded SendTx call and the arguments of
    every recorded GetActiveChannelID / GetCapability query.  [mismatches] re-runs the model and
    lists the ids of the cases where any of these differ. *)
-From Coq Require Import List ZArith NArith Bool Strings.Byte Strings.Ascii Strings.String.
+From Coq Require Import List ZArith NArith Bool Strings.Byte Strings.Ascii Strings.String Uint63.
 Require Import Regen.Base.Bytes Regen.Generated.IntertxConsts Regen.Intertx.ProtoWire Regen.Intertx.SubmitTx.
 Import ListNotations.
 
-(* [hx "0a1f..."]: byte string from lower-case hex (compact literals in case files; Coq parses a
-   string token much faster than a list of byte constructors).  Ill-formed input cannot make a
-   wrong case pass by accident: a non-hex character decodes as some byte and the comparison with
-   the model simply fails. *)
+(* Compact literals for case files.  Coq elaborates a long list of byte constructors or a long
+   string literal slowly (tens of seconds per MB), so long byte strings are shipped as lists of
+   primitive 63-bit integers, 7 bytes per integer, big-endian, zero-padded at the end:
+   [u63 n [i1; i2; ...]] is the first [n] bytes of the concatenation of the 7-byte groups.
+   Short or printable strings use [b "..."] (Regen.Base.Bytes) or [hx "<lower-case hex>"].
+   Ill-formed input cannot make a wrong case pass by accident: the decoded bytes are compared with
+   what the model computes. *)
 Definition hex_val (a : Ascii.ascii) : N :=
   let n := Ascii.N_of_ascii a in
   if (n <? 58)%N then (n - 48)%N else (n - 87)%N.
@@ -22,6 +25,13 @@ Fixpoint hx (s : String.string) : bytes :=
   | String.String a (String.String c r) => byte_of_N_trunc (16 * hex_val a + hex_val c) :: hx r
   | _ => []
   end.
+
+Definition int_byte (i : Uint63.int) (shift : Uint63.int) : byte :=
+  byte_of_Z_trunc (Uint63.to_Z (Uint63.land (Uint63.lsr i shift) 255%uint63)).
+Definition unpack7 (i : Uint63.int) : bytes :=
+  [int_byte i 48%uint63; int_byte i 40%uint63; int_byte i 32%uint63; int_byte i 24%uint63;
+   int_byte i 16%uint63; int_byte i 8%uint63; int_byte i 0%uint63].
+Definition u63 (n : N) (l : list Uint63.int) : bytes := firstn (N.to_nat n) (flat_map unpack7 l).
 
 (* observed error class *)
 Inductive oerr :=
